@@ -21,11 +21,16 @@ package server
 //@ trusted file-system effects (rename + directory sync)
 //@ requires fileutil.gFlagDir == se.tmpDir
 
+// gFinalized: the snapshot directory has been published under its final name;
+// gFlagRemoved: its flag file has been removed (the snapshot counts as complete from then on)
+//@ ghost var gFinalized bool
+//@ ghost var gFlagRemoved bool
 //@ func (se *SSEnv) FinalizeSnapshot [C16]
 //@ noframe
-//@ modifies fileutil.gFlagDir, held(finalizeLock), raftio.gDataMutated
+//@ modifies fileutil.gFlagDir, held(finalizeLock), raftio.gDataMutated, gFinalized
 //@ ensures result == nil ==> fileutil.gFlagDir == se.tmpDir
 //@ ghostset raftio.gDataMutated := true
+//@ ghostset gFinalized := result == nil
 
 // ---------------------------------------------------------------- steps used by tools.ImportSnapshot (C20)
 // steps that modify a replica's snapshot directories say so through raftio.gDataMutated
@@ -55,5 +60,8 @@ package server
 //@ trusted pure
 //@ func (se *SSEnv) RemoveFlagFile [C16]
 //@ trusted removes the flag file of a final snapshot directory (and syncs the directory)
+//@ ghostset gFlagRemoved := true
+//@ func (se *SSEnv) SaveSSMetadata [C16]
+//@ trusted writes the metadata file into the temporary directory
 //@ func (se *SSEnv) RemoveFinalDir [C16]
 //@ trusted removes the final snapshot directory
